@@ -12,8 +12,14 @@ correspondence: generated services (<= 4 stream methods: producer / exchange, si
                distinct classes, call states) behind the real app, with and without the compact (msgpack) state codec;
                every harvested cursor (first generation, and those re-minted by whichever endpoint served it) is
                presented at EVERY stream endpoint with its own / no / another stream's call token, own / other identity,
-               data / cancel turn, warm / cold call-state cache.  Model verdict, state class, field values, bound call,
-               cache insertion vs the real app; minted state bytes (union tag, codec, columns) vs the model's encode.
+               data / cancel turn, warm / cold call-state cache.  Model verdict (incl. the refusal class read off the 400
+               body), state class, field values, bound call, cache put vs the real app; minted state bytes (union tag,
+               codec, columns) vs the model's encode.
+
+Finding (pending the coordinator's decision; candidate patch fixes/C13-bind-method-in-token-aad.diff changes the token
+format -> known finding rather than fix): key "C13-no-method-binding".  With that patch applied the translator stops
+("the AAD is no longer a function of the AuthContext alone") and the correspondence reports the foreign presentations
+the model still accepts: the model and R_C13 must then be revisited.
 
 Readings adopted
   * "the stream method whose initialization minted its tokens" = the method whose /init started the stream the cursor
